@@ -84,7 +84,8 @@ def gen_cases(rng, tier):
     cases = []
 
     def add(hist, label):
-        ops = ["dec new strict"] + ["dec pkt " + sym[s].hex() for s in hist] + ["dec keys"]
+        # one history in three runs on a collector configured for udp (templates with a lifetime; same decoding)
+        ops = ["dec new strict" + (" udp" if len(cases) % 3 == 1 else "")] + ["dec pkt " + sym[s].hex() for s in hist] + ["dec keys"]
         if label in ("same-ids-other-enterprise", "random"):
             # ... and the content of what is stored for the keys the history touched (element identities)
             ops += ["dec tpl %d %d" % (d, i) for (d, i) in sorted({(k[1], k[2]) for k in hist})]
